@@ -103,7 +103,8 @@ def hareStep (q : Rat) (prev : Seats) (acc : Except Err Seats) (p : Cand × Rat)
   else pure sel
 
 def hareQuotaSeats (votes : Votes) (n : Nat) (prev : Seats) : Except Err Seats :=
-  if n = 0 then .error zeroDiv else
+  if n = 0 then .error zeroDiv else            -- `Fraction(total, 0)` in the Hare quota
+  if sumVals votes / (n : Rat) ≤ 0 then .error .votingSystemError else   -- non-positive quota refused (eca6e34)
   votes.foldl (hareStep (sumVals votes / (n : Rat)) prev) (.ok [])
 
 /-- `quota_elected[candidate] += 1` / `= 1` for one entry of `best` (proportional.py L385-389) -/
